@@ -434,6 +434,7 @@ class Interp:
         self.enum_discr = dict(DISCR)
         self.hooks = {}             # name -> python callable overriding a MIR fn
         self.redirects = {}         # name -> name of the MIR function to run instead
+        self.const_overrides = {}   # last path segment of a named constant -> value (scaled-down bounds; stated in evidence)
 
     # -- callee resolution
     def find_model(self, name):
@@ -778,6 +779,10 @@ class Interp:
         raise Inconclusive("constant `%s` in %s" % (t, fr.fn.name if fr else "?"))
 
     def lookup_const(self, fr, name):
+        if self.const_overrides:
+            tail0 = name.split("::")[-1]
+            if tail0 in self.const_overrides:
+                return self.const_overrides[tail0]
         for pr in self.progs:
             cands = []
             if name in pr.consts:
